@@ -21,7 +21,7 @@ VERIF = os.path.dirname(os.path.dirname(os.path.abspath(__file__)))
 HARNESS = os.path.join(VERIF, "harness")
 CACHE = os.environ.get("VERIF_BUILD_CACHE", "/var/tmp/chibi-verif-builds")
 MAX_CACHED = int(os.environ.get("VERIF_BUILD_CACHE_MAX", "10"))
-BUILD_TIMEOUT = 900
+BUILD_TIMEOUT = 400
 
 HOOKS = "-DSEXP_USE_VERIF_HOOKS=1 -I%s" % HARNESS
 
